@@ -128,6 +128,9 @@ type Box[T any] struct{ V T; next *Box[T] }
 type Pair[K comparable, V any] struct{ Key K; Val V }
 func Mk[T any]() struct{ F T; G int } { var z struct{ F T; G int }; return z }
 func MkPtr[T any]() *struct{ Elem []T; box Box[T] } { return nil }
+func (p Pair[K, V]) Ends() struct{ First K; Last V } { var z struct{ First K; Last V }; return z }
+func (b *Box[T]) Unwrap() *struct{ Inner T; depth int } { return nil }
+type Emb[T any] struct{ Box[T]; Count int }
 `
 
 func init() {
@@ -174,11 +177,14 @@ func init() {
 			stats[fmt.Sprintf("fields_%d", len(s))]++
 		}
 		d.WriteString("var m = a.Mk[int]()\nvar _ = m.F\nvar mp = a.MkPtr[string]()\nvar _ = mp.Elem\n")
+		// anonymous structs that only appear in the signatures of METHODS of generic types, used from another package
+		d.WriteString("var pe = a.Pair[string, int]{}.Ends()\nvar _ = pe.First\nvar ub = (&a.Box[int]{}).Unwrap()\nvar _ = ub.Inner\nvar _ = struct{ First string; Last int }(pe)\nvar em a.Emb[int]\nvar _ = em.Count\n")
 		emit("tsrc %s %s", hs("gv.test/b"), hs(b.String()))
 		emit("tsrc %s %s", hs("gv.test/c"), hs(c.String()))
 		emit("tsrc %s %s", hs("gv.test/d"), hs(d.String()))
 		pairs = append(pairs, pairOp{"a.Mk[int]()", "a.Mk[string]()", "generic-func-result"}, pairOp{"a.Mk[int]()", "struct{ F int; G int }", "generic-func-result-vs-literal"},
-			pairOp{"*a.MkPtr[int]()", "*a.MkPtr[bool]()", "generic-func-result"}, pairOp{"a.AliasS", "struct{ X int; Y string }", "alias"}, pairOp{"a.E0", "a.AliasE", "alias"})
+			pairOp{"*a.MkPtr[int]()", "*a.MkPtr[bool]()", "generic-func-result"}, pairOp{"a.Pair[string, int]{}.Ends()", "struct{ First string; Last int }", "generic-method-result-vs-literal"},
+			pairOp{"a.Pair[string, int]{}.Ends()", "a.Pair[bool, bool]{}.Ends()", "generic-method-result"}, pairOp{"a.Emb[int]{}", "struct{ a.Box[int]; Count int }{}", "embedded-generic"}, pairOp{"a.AliasS", "struct{ X int; Y string }", "alias"}, pairOp{"a.E0", "a.AliasE", "alias"})
 		dp := hs("gv.test/d")
 		for _, p := range pairs {
 			emit("tpair %s %s %s", dp, hs(p.e1), hs(p.e2))
